@@ -210,7 +210,9 @@ func (d *dataTracer) traceMessageLocked(data []byte) (int, bool) {
 	if d.endStream != nil { //nolint:nestif
 		_, _ = d.endStream.Write(data[:need])
 		var content string
-		if d.decompressor == nil {
+		if d.decompressor == nil || d.env.Flags&1 == 0 {
+			// The message's compressed flag (not the negotiated encoding)
+			// tells whether this end-stream message is compressed.
 			content = d.endStream.String()
 		} else {
 			var uncompressed bytes.Buffer
